@@ -356,10 +356,11 @@ func Run(s Scenario) *Outcome {
 
 	// open streams
 	type upRT struct {
-		up      *iscp.Upstream
-		out     *UpOutcome
-		writers atomic.Int64 // every writer goroutine gets its own writer id: order is only defined per writer
-		resumed atomic.Int64
+		up           *iscp.Upstream
+		out          *UpOutcome
+		writers      atomic.Int64 // every writer goroutine gets its own writer id: order is only defined per writer
+		resumed      atomic.Int64
+		streamClosed atomic.Bool
 	}
 	var ups []*upRT
 	for i, us := range s.Ups {
@@ -467,7 +468,7 @@ func Run(s Scenario) *Outcome {
 			err := u.out.Rec.Write(ctx, u.up, wid, id, []int{cn}, []int{40})
 			c()
 			if err != nil && errors.Is(err, iscperrors.ErrStreamClosed) {
-				u.out.WriteStreamClosed = true
+				u.streamClosed.Store(true)
 				return
 			}
 			if gap > 0 {
@@ -650,7 +651,7 @@ func Run(s Scenario) *Outcome {
 		for time.Now().Before(deadline) {
 			cur := w.Net.Current()
 			lc := w.B.CurrentLink()
-			if cur != nil && cur.Mode() == memnet.Healthy && !cur.Dead() && lc != nil && lc.Connect != nil && disc.Load() == recon.Load() && disc.Load() > 0 {
+			if cur != nil && cur.Mode() == memnet.Healthy && !cur.Dead() && lc != nil && lc.Connected() && disc.Load() == recon.Load() && disc.Load() > 0 {
 				ok = true
 				break
 			}
@@ -701,7 +702,7 @@ func Run(s Scenario) *Outcome {
 		if err != nil {
 			u.out.ProbeErr = err.Error()
 			if errors.Is(err, iscperrors.ErrStreamClosed) {
-				u.out.WriteStreamClosed = true
+				u.streamClosed.Store(true)
 			}
 			continue
 		}
@@ -800,6 +801,7 @@ func Run(s Scenario) *Outcome {
 			u.out.ClosedErrs = append(u.out.ClosedErrs, c.Err)
 		}
 		u.out.Resumed = u.out.Rec.Resumed
+		u.out.WriteStreamClosed = u.streamClosed.Load()
 	}
 	w.B.Unlock()
 	bdowns := map[uuid.UUID]*broker.DownState{}
